@@ -132,8 +132,10 @@ def search(ctx, broken, corr_failures):
     r = vlib.run_impl("c03_impl", {"fn": "oracle", "seed": ctx.seed, "n": n, "maxlen": ctx.n(3, 6)}, timeout=1500)
     ctx.notes.append(f"implementation-side property evaluation, ops exercised: {r['counts']} (20% of grids in the cancellation stream: "
                      "centers ~1e4, spacings ~1e-2)")
+    rs = vlib.run_impl("c03_impl", {"fn": "rounding_stress", "seed": ctx.seed, "n": ctx.n(4000, 60000)}, timeout=2400)
+    ctx.notes.append(f"rounding stress: {rs['ops']} derivations on cancellation-prone grids, {len(rs['fails'])} raised")
     out, seen = [], set()
-    for f in r["fails"]:
+    for f in r["fails"] + rs["fails"]:
         if f["key"] in seen:
             continue
         seen.add(f["key"])
